@@ -137,6 +137,9 @@ class Builder:
                 cargs = B.call_args(st["callee"], sub, a)
                 if st["kw"] and B.kind(st["callee"]) == "fn":
                     env[st["addr"]] = callee(cargs[0], arg=cargs[1]) @ st["addr"]
+                elif st["kw"] and B.kind(st["callee"]) == "cond":
+                    # keyword arguments through a combinator: Cond forwards them to both branches
+                    env[st["addr"]] = callee(cargs[0], cargs[1], arg=cargs[2]) @ st["addr"]
                 else:
                     env[st["addr"]] = callee(*cargs) @ st["addr"]
             return ev(ret, arg, env)
